@@ -429,6 +429,9 @@ def analyse(fl, scn, sr, case, res, model_ok):
                     F[c][k] = F[c][k] + vs
         # ---- undo the mutation to obtain the contents right after the operations
         mut = blk["mut"]
+        res.count("block:" + ("+".join(mut[:1] + mut[2:3]) if mut else "ops") + ("" if blk["ops"] else "(no ops)"))
+        for (_, d) in blk["obs"]:
+            res.count("obs:" + d[0])
         Q = {0: F[0], 1: F[1]}
         d_ops = dict(dflt)
         post_expect = None
